@@ -19,6 +19,11 @@ NUM_HDR = 47
 H_IDX = {'num_vars': 14, 'num_algebraic_cons': 15, 'num_objs': 16, 'num_logical_cons': 19, 'num_funcs': 32, 'ce0': 42}
 
 
+# notifications that announce a count, and which argument it is
+COUNT_ARG = {'bce': 1, 'linobj': 1, 'lincon': 1, 'isuf': 2, 'dsuf': 2, 'bpl': 0, 'bcall': 1, 'bva': 1, 'bsum': 0, 'bcnt': 0,
+             'bno': 0, 'bsno': 0, 'bil': 1, 'bpw': 1, 'col': 0}
+
+
 class Oracle:
     """Independent re-implementation of the property predicate over the event tokens of one run.
     Returns None if consistent, else a short reason."""
@@ -52,6 +57,8 @@ class Oracle:
                 return 'event-after-end:' + tok[:12]
             name, _, rest = tok.partition(':')
             a = rest.split(',') if rest else []
+            if name in COUNT_ARG and int(a[COUNT_ARG[name]]) < 0:
+                return 'negative-count:' + name
             closed_top()
             top = stack[-1] if stack else None
             if top and top[0] in ('terms', 'cols', 'suf') and name not in {'terms': ('term',), 'cols': ('col',), 'suf': ('sv', 'sd')}[top[0]]:
@@ -184,6 +191,9 @@ def build_cases(ck, T, cov):
         if len(b) < 20000:
             cases.append((0, -1, b, 'repo-data'))
             cases.append((1, -1, b, 'repo-data'))
+    for mode, d, tag in G.hostile_count_family(T):
+        cases.append((0, -1, d, tag))
+        cov[tag] = cov.get(tag, 0) + 1
     modes = ['text', 'text', 'bin', 'binswap']
     for i in range(n_valid):
         mode = modes[i % 4]
@@ -366,7 +376,7 @@ def run(ck):
             hist_out['abort:' + kind] = hist_out.get('abort:' + kind, 0) + 1
             where = where_of_abort(aborts[i])
             if kind in ('alloc-too-big', 'asan-allocator', 'asan-requested', 'asan-out-of-memory', 'asan-allocation-size-too-big'):
-                hist_out['abort:alloc-too-big(asan-artifact)'] = hist_out.get('abort:alloc-too-big(asan-artifact)', 0) + 1
+                pass
                 # ASan turns a failing `operator new` (allocation by a hostile count, > max_allocation_size_mb)
                 # into a fatal report; without ASan this is std::bad_alloc, i.e. an exception: not a violation
                 continue
